@@ -86,7 +86,7 @@ def nextDash : List Piece → Bool
   | .tag lw _ _ _ _ _ _ :: _ => lw
   | .raw lw1 _ _ _ _ _ _ _ _ :: _ => lw1
   | .doc lw1 _ _ _ _ _ _ _ _ :: _ => lw1
-  | .sc body _ :: _ => body.head? == some '-'
+  | .sc body rw :: _ => (body ++ dash rw).head? == some '-'
 
 def contentMatch (pos : Nat) (s : List Char) (rstrip : Bool) : Match :=
   { kind := .content, start := pos, whole := s, name := [], nameOff := pos, body := s, bodyOff := pos, rs := false, rstrip }
